@@ -442,11 +442,19 @@ def c_up2(r, c):
     return c_up(r, c)
 
 
-def c_ar2(r, c):
-    return c_ar(r, c)
+def c_arsparse(r, c):
+    if not r["members"]:
+        return None
+    r["members"][0]["size"] = r["members"][0]["size"][:-1] + [48 if r["members"][0]["size"][-1] != 48 else 49]
+    return r
 
 
-CORRUPT = {"cmp_text": c_cmp_text, "enc_structs": c_enc_structs, "rt_slice": c_rt_slice, "write_fault": c_write_fault, "read_long": c_read_long, "write_long": c_write_long, "rt_long": c_rt_long, "doc_long": c_doc_long, "cl_long": c_cl_long,
+def c_upreparse(r, c):
+    r["b"] = r["a"]
+    return r
+
+
+CORRUPT = {"arsparse": c_arsparse, "upreparse": c_upreparse, "cmp_text": c_cmp_text, "enc_structs": c_enc_structs, "rt_slice": c_rt_slice, "write_fault": c_write_fault, "read_long": c_read_long, "write_long": c_write_long, "rt_long": c_rt_long, "doc_long": c_doc_long, "cl_long": c_cl_long,
            "hasher_life": c_hasher_life, "upseq": c_upseq, "rt2": c_rt2, "cs_ops": c_cs_ops, "deb_ops": c_deb_ops, "cmp": c_cmp, "row": c_row, "triple": c_triple, "sort": c_sort, "parse": c_parse, "dep": c_dep, "dep_rt": c_dep_rt,
            "arch_rt": c_arch_rt, "is": c_is, "setmatch": c_setmatch, "select": c_select, "sat": c_sat, "read": c_read,
            "write": c_write, "rw": c_rw, "rt": c_rt, "passthru": c_passthru, "doc": c_doc, "cs": c_cs2, "hw": c_hw, "hr": c_hw,
